@@ -30,3 +30,140 @@ Theorem C04_isolation_iter : forall s t x' y o seek,
   txn_iterate (set_txn s t x') y o seek = txn_iterate s y o seek.
 Proof. exact SysProofs.iterate_ignores_other_txns. Qed.
 Print Assumptions C04_isolation_iter.
+
+(* ======================================================================================
+   Iterators inside a read-write transaction (B/OverlayProofs.v).  Sys.txn_iterate reads
+   merge2 (pend_src x) (merged db): the pending writes (stamped with readTs, sorted by key)
+   layered over the snapshot.  `pend_ok x` (one pending entry per key, filed under its own
+   key) is what Txn.modify maintains — C04_pending_map_wf.
+   ====================================================================================== *)
+From Verif Require Import Compact CompactProofs EntOrderProofs IterOrderProofs IterSpecProofs OverlayProofs.
+From Verif Require GetProofs.
+From Coq Require Import Sorting.Sorted.
+
+Theorem C04_pending_map_wf : forall rts upd es,
+  pend_ok (SysProofs.modifies (mkTxn rts upd [] [] [] false) es).
+Proof. intros rts upd es. apply pend_ok_modifies. apply pend_ok_begin. Qed.
+Print Assumptions C04_pending_map_wf.
+
+(* the pending source: exactly the pending write of every key, at version readTs; sorted *)
+Theorem C04_pending_source : forall x y,
+  x_update x = true -> pend_ok x ->
+  (In y (pend_src x) <-> exists pe, klookup (x_pend x) (e_key y) = Some pe /\ y = with_ver pe (x_read x)).
+Proof. exact pend_src_in. Qed.
+Print Assumptions C04_pending_source.
+
+Theorem C04_overlay_sorted : forall s x, ssorted (merged (s_db s)) -> ssorted (merge2 (pend_src x) (merged (s_db s))).
+Proof. exact txn_stream_sorted. Qed.
+Print Assumptions C04_overlay_sorted.
+
+(* the iteration is the specification scan (C05) of the overlaid stream *)
+Theorem C04_iterate_is_spec_of_overlay : forall s x o,
+  ssorted (merged (s_db s)) -> io_reverse o = false -> io_prefix o = [] -> io_prefix_is_key o = false ->
+  let m := merge2 (pend_src x) (merged (s_db s)) in
+  txn_iterate s x o [] = filter (emit o (x_read x) (s_now s) (fun _ => false) m) m.
+Proof. exact txn_iterate_spec. Qed.
+Print Assumptions C04_iterate_is_spec_of_overlay.
+
+(* per key: a key with a pending write shows that write (at version readTs) if it passes the
+   iterator's checks (SinceTs, internal keys) and is live, and NOTHING otherwise — never the
+   snapshot's version; a key without pending write shows what the snapshot iteration shows;
+   keys strictly increasing *)
+Theorem C04_iterate_reflects_pending : forall s x o k,
+  x_update x = true -> pend_ok x -> ssorted (merged (s_db s)) ->
+  io_reverse o = false -> io_all o = false -> io_prefix o = [] -> io_prefix_is_key o = false ->
+  let l := txn_iterate s x o [] in
+  StronglySorted klt (map e_key l) /\
+  find (fun e => bytes_eqb (e_key e) k) l =
+  match klookup (x_pend x) k with
+  | Some pe =>
+      let e := with_ver pe (x_read x) in
+      if skip_common o (x_read x) (fun _ => false) e || deleted_or_expired e (s_now s) then None else Some e
+  | None =>
+      find (fun e => bytes_eqb (e_key e) k) (iterate o (x_read x) (s_now s) (fun _ => false) (merged (s_db s)) [])
+  end.
+Proof. exact iterate_reflects_pending. Qed.
+Print Assumptions C04_iterate_reflects_pending.
+
+Theorem C04_iterate_reflects_pending_in : forall s x o e,
+  x_update x = true -> pend_ok x -> ssorted (merged (s_db s)) ->
+  io_reverse o = false -> io_all o = false -> io_prefix o = [] -> io_prefix_is_key o = false ->
+  (In e (txn_iterate s x o []) <->
+   match klookup (x_pend x) (e_key e) with
+   | Some pe => e = with_ver pe (x_read x) /\ skip_common o (x_read x) (fun _ => false) e = false /\
+                deleted_or_expired e (s_now s) = false
+   | None => In e (iterate o (x_read x) (s_now s) (fun _ => false) (merged (s_db s)) [])
+   end).
+Proof. exact iterate_reflects_pending_in. Qed.
+Print Assumptions C04_iterate_reflects_pending_in.
+
+(* Seek, Prefix and direction act on the overlaid iteration exactly as on any iteration *)
+Theorem C04_iterate_seek : forall s x o seek,
+  ssorted (merged (s_db s)) -> io_reverse o = false -> io_prefix_is_key o = false -> kle (io_prefix o) seek ->
+  txn_iterate s x o seek = filter (fbound seek) (txn_iterate s x o []).
+Proof. exact txn_iterate_seek. Qed.
+Print Assumptions C04_iterate_seek.
+Theorem C04_iterate_prefix : forall s x o,
+  ssorted (merged (s_db s)) -> io_reverse o = false -> io_prefix_is_key o = false ->
+  txn_iterate s x o [] = filter (fun e => is_prefix (io_prefix o) (e_key e)) (txn_iterate s x (no_prefix o) []).
+Proof. exact txn_iterate_prefix. Qed.
+Print Assumptions C04_iterate_prefix.
+Theorem C04_iterate_reverse : forall s x o,
+  ssorted (merged (s_db s)) -> io_reverse o = false -> io_prefix o = [] -> io_prefix_is_key o = false ->
+  txn_iterate s x (set_reverse true o) [] = rev (txn_iterate s x o []).
+Proof. exact txn_iterate_reverse. Qed.
+Print Assumptions C04_iterate_reverse.
+Theorem C04_iterate_seek_reverse : forall s x o seek,
+  ssorted (merged (s_db s)) -> io_reverse o = true -> io_prefix o = [] -> io_prefix_is_key o = false ->
+  txn_iterate s x o seek = filter (rbound seek) (txn_iterate s x o []).
+Proof. exact txn_iterate_seek_reverse. Qed.
+Print Assumptions C04_iterate_seek_reverse.
+
+(* Get and iteration agree inside the transaction: the item under key k is what Txn.Get(k)
+   returns (pending write first, else the snapshot) *)
+Theorem C04_iterate_agrees_with_get : forall s x o k,
+  k <> [] -> x_done x = false -> pend_ok x ->
+  GetProofs.lsm_wf (s_db s) -> nodup_kv (GetProofs.all_entries (s_db s)) ->
+  io_reverse o = false -> io_all o = false -> io_prefix o = [] -> io_prefix_is_key o = false -> io_since o = 0 ->
+  allowed o k = true ->
+  find (fun e => bytes_eqb (e_key e) k) (txn_iterate s x o []) =
+  match fst (txn_get s x k) with GFound e => Some e | _ => None end.
+Proof. exact iterate_agrees_with_get. Qed.
+Print Assumptions C04_iterate_agrees_with_get.
+
+(* ... in every reachable state, for every open transaction of that state *)
+From Verif Require Import SysReopen SysTree.
+Theorem C04_iterate_agrees_with_get_reachable : forall detect nkeep nlevels next ops,
+  (0 < nlevels)%nat -> Forall op_plain ops ->
+  let s := snd (exec_tree (init_sys false detect nkeep nlevels next) ops 0) in
+  forall t x o k,
+    lookup (s_txns s) t = Some x -> x_done x = false -> k <> [] ->
+    io_reverse o = false -> io_all o = false -> io_prefix o = [] -> io_prefix_is_key o = false -> io_since o = 0 ->
+    allowed o k = true ->
+    find (fun e => bytes_eqb (e_key e) k) (txn_iterate s x o []) =
+    match fst (txn_get s x k) with GFound e => Some e | _ => None end.
+Proof. exact iterate_agrees_with_get_reachable. Qed.
+Print Assumptions C04_iterate_agrees_with_get_reachable.
+
+(* the hypotheses are satisfiable: a snapshot with nested-prefix keys, 0x00/0xFF bytes and several
+   versions; pending: an overwrite, a delete of a visible key, a new key between two others *)
+Definition ex_db : lsm :=
+  mkLsm [mkE [1] 3 0 0 0 [30]; mkE [1; 0] 4 0 0 0 [40]; mkE [1; 0] 2 0 0 0 [20]; mkE [1; 255] 1 0 0 0 [10]; mkE [2] 3 0 0 0 [31]] [] [[]].
+Definition ex_sys : sys := mkSys ex_db 7 [] [] false false 1 0 [] 10.
+Definition ex_txn : txn :=
+  SysProofs.modifies (mkTxn 6 true [] [] [] false)
+    [mkE [1; 0] 0 0 0 0 [99]; mkE [1; 255] 0 1 0 0 []; mkE [1; 0; 255] 0 0 0 0 [77]; mkE [1; 0] 0 0 0 0 [98]].
+Definition ex_opts : iopts := mkIO false false [] false 0 false.
+
+Example C04_ex_hyps :
+  x_update ex_txn = true /\ pend_ok ex_txn /\ ssorted (merged (s_db ex_sys)) /\
+  txn_iterate ex_sys ex_txn ex_opts [] =
+    [mkE [1] 3 0 0 0 [30]; mkE [1; 0] 6 0 0 0 [98]; mkE [1; 0; 255] 6 0 0 0 [77]; mkE [2] 3 0 0 0 [31]] /\
+  txn_iterate ex_sys ex_txn (set_reverse true ex_opts) [1; 0; 255] =
+    [mkE [1; 0; 255] 6 0 0 0 [77]; mkE [1; 0] 6 0 0 0 [98]; mkE [1] 3 0 0 0 [30]] /\
+  fst (txn_get ex_sys ex_txn [1; 255]) = GNotFound /\
+  fst (txn_get ex_sys ex_txn [1; 0]) = GFound (mkE [1; 0] 6 0 0 0 [98]).
+Proof.
+  split; [reflexivity|]. split; [apply C04_pending_map_wf|]. split; [vm_compute; repeat constructor|].
+  vm_compute. repeat split; reflexivity.
+Qed.
